@@ -95,6 +95,31 @@ theorem C07_traverse (K : Closures) (p : List Int) : ∀ (s : Stk),
             obtain ⟨h1, h2⟩ := deepSmall_descend v s' hdv hdi
             exact ih s' (by rw [pow62]; exact h1) h2 (fun k hk => hi k (by simp [hk]))
 
+/-- the installed closures have no say in a traversal (repair F34: a validity policy used to veto it): whatever they
+answer, the walk and its result are the same -/
+theorem C07_closures_irrelevant (K K' : Closures) (p : List Int) : ∀ s : Stk, s.traverse K p = s.traverse K' p := by
+  induction p with
+  | nil => intro s; rfl
+  | cons i rest ih =>
+    intro s
+    unfold traverse
+    cases s.index i with
+    | error f => rfl
+    | ok r =>
+      obtain ⟨v, j, found⟩ := r
+      simp only
+      cases found with
+      | false => rfl
+      | true =>
+        simp only [Bool.not_true, Bool.false_eq_true, ↓reduceIte]
+        cases rest with
+        | nil => rfl
+        | cons j' rest' =>
+          simp only
+          cases descendInto v with
+          | none => rfl
+          | some s' => exact ih s'
+
 /-- success iff every step found a non-nil element and every intermediate value was descendable -/
 theorem C07_empty_path (K : Closures) (s : Stk) : s.traverse K [] = .ok (.nil, false) := rfl
 
